@@ -44,8 +44,12 @@ PR == INSTANCE PathRes WITH Variant <- "fixed", w <- 0, entry <- 0, done <- 0
 PlaceOf(r) == PR!Place([dirs |-> SeqToSet(r.world.dirs), files |-> SeqToSet(r.world.files),
                         links |-> {<<l[1], l[2]>> : l \in SeqToSet(r.world.links)}], r.world.dest, r.world.entry)
 
+\* one rebuild as a sequence of entries (RebuildTxn.tla): what the code leaves in the destination when a copy fails half way
+TX == INSTANCE RebuildTxn WITH Variant <- "fixed", MaxEntries <- 4, entries <- 0, pc <- 0, status <- 0, inside <- 0,
+                               victims <- 0, recorded <- 0, validated <- 0
 Clause(r, c) ==
-  CASE c = "M19.impl" -> SeqToSet(PlaceOf(r).muts) = SeqToSet(r.touched)
+  CASE c = "M19.txn" -> SeqToSet(r.placed) = TX!FixedPlaced(r.txn)
+    [] c = "M19.impl" -> SeqToSet(PlaceOf(r).muts) = SeqToSet(r.touched)
     [] c = "M13.impl" -> r.status # "ok" \/ r.P \notin {2, 16384, 32768} \/ r.ntorrents # 1 \/ r.runs # 1
                          \/ (\E k \in DOMAIN r.files : r.files[k].dest_pre # "absent")
                          \/ [k \in DOMAIN r.files |-> r.files[k].after] = (IF r.version = 1 THEN ImplAfter(r) ELSE ImplAfterV2(r))
